@@ -251,7 +251,8 @@ def all_families(nws=(1, 2, 3)):
                 abandoned_await(nw), abandoned_await_msg(nw), fail_multi_worker_select(nw), fail_already_failed_multi(nw),
                 shared_target(nw), shared_target(nw, True), shared_failing_target(nw), await_window(nw),
                 fail_during_filter_effect(nw, True), fail_during_filter_effect(nw, False),
-                fail_during_filter_effect(nw, True, True), fail_during_filter_effect(nw, False, True), burst(40, nw), reawait(nw, True), reawait(nw, False)]
+                fail_during_filter_effect(nw, True, True), fail_during_filter_effect(nw, False, True),
+                fail_during_filter_read(nw, True), fail_during_filter_read(nw, False), burst(40, nw), reawait(nw, True), reawait(nw, False)]
         out += heap_cases(nw)
         out += [bin_final_send(nw), bin_final_send_tuple(nw)]
         out += session_cases(nw)
@@ -866,6 +867,24 @@ def fail_during_filter_effect(nw=2, deferred=True, failing=False):
         s["deferred_io"] = True
         s["iomodes"] = ["later"]
     return meta(s, False, False, ["C15"], large=True)
+
+
+def fail_during_filter_read(nw=2, deferred=True):
+    # as fail_during_filter_effect, but the filter READS from a resource the process opened: the successful
+    # completion carries a HEAP BINARY, which arrives for a process that an awaited process's failure has already
+    # finished (seeded change C06-5: the completion was dropped after its value had been retained - a slot that is
+    # counted but reached by nothing).  Whatever the order, counts and reachability must agree at every boundary.
+    scripts = [[spawn(1, 2), spawn(2, 3, r(1)), send(2, c(I(5))), spawn(3, 4), select(4, aw(3)), select(5, aw(2), tmo(3)),
+                ret(r(4))],
+               [select(1, tmo(1)), fail()],
+               [ropen(2), select(3, aw(1), recv(("int",), body="effect_read", reg=2)), ret(r(3))],
+               [select(1, tmo(2)), ret(c(I(7)))]]
+    s = scenario("fail_during_filter_read%s_w%d" % ("_deferred" if deferred else "", nw), scripts, nw=nw, maxtick=4,
+                 io=True, maxpid=4)
+    if deferred:
+        s["deferred_io"] = True
+        s["iomodes"] = ["later"]
+    return meta(s, False, False, ["C06", "C15"], large=True)
 
 
 def shared_failing_target(nw=2):
